@@ -35,14 +35,9 @@ def _apply(variant: dict[str, Any], root: Path) -> str | None:
     if "patch" in variant:
         import subprocess
 
-        r = subprocess.run(
-            ["git", "apply", "--unsafe-paths", "--include=liquid2/*", f"--directory={root}", variant["patch"]],
-            cwd="/", capture_output=True, text=True,
-        )
+        r = subprocess.run(["patch", "-p1", "-s", "-f", "-i", variant["patch"]], cwd=root, capture_output=True, text=True)
         if r.returncode != 0:
-            r = subprocess.run(["patch", "-p1", "-s", "-f", "-i", variant["patch"]], cwd=root, capture_output=True, text=True)
-            if r.returncode != 0:
-                return f"patch does not apply: {r.stdout.strip()[:200]} {r.stderr.strip()[:200]}"
+            return f"patch does not apply: {r.stdout.strip()[:200]} {r.stderr.strip()[:200]}"
         return None
     for e in variant["edits"]:
         p = root / e["file"]
